@@ -67,6 +67,10 @@ _CACHE_SCRIPT = r'''intro limit expiration s k ok args{HOK}
         · have hlt' : ¬ ((x : Int) < (s.now : Int)) := by omega
           cases heo : e.ok <;> cache_eval'''
 
+_TIMEOUT_FX = {("future", "done"): (241, []), ("future", "cancel"): (243, []), ("future", "set_result"): (244, ["@0"]),
+               ("future", "set_exception"): (246, ["@0"]), ("task", "cancelled"): (242, []), ("task", "result"): (245, []),
+               ("task", "cancel"): (247, []), ("timeout_handle", "cancel"): (240, [])}
+
 GROUPS = {
     "contexts": {
         "import": "Haiway.Bridge.Contexts", "open": "Haiway.MiniPy Haiway.Bridge.Contexts",
@@ -350,6 +354,39 @@ GROUPS = {
             ("finish_one_level", ["gFinish"], "Finish gFinish",
              "intro finished done nestedOpen now created parent args\n  unfold gFinish\n"
              "  cases finished <;> cases done <;> cases nestedOpen <;> cases parent <;> completion_eval"),
+        ],
+    },
+    "timeout": {
+        "import": "Haiway.Bridge.Timeout", "open": "Haiway Haiway.MiniPy Haiway.Bridge.Timeout",
+        "defs": {
+            **{name: Target("src/haiway/helpers/timeouted.py", "_AsyncTimeout", "__call__." + fn, params, {}, _TIMEOUT_FX, closure=clo)
+               for name, fn, params, clo in (("gOnTimeout", "on_timeout", ["future"], []),
+                                             ("gOnCompletion", "on_completion", ["task"], ["future", "timeout_handle"]),
+                                             ("gOnResult", "on_result", ["future"], ["task"]))},
+            "gCall": Target("src/haiway/helpers/timeouted.py", "_AsyncTimeout", "__call__", ["args", "kwargs"], {"_timeout": 1},
+                            {("self", "_function"): (250, ["$args", "$kwargs"]), ("loop", "create_future"): (251, []),
+                             ("loop", "create_task"): (252, ["@0"]), ("loop", "call_later"): (253, ["@0", "@1", "@2"]),
+                             ("task", "add_done_callback"): (254, ["$task", "@0"]),
+                             ("future", "add_done_callback"): (255, ["$future", "@0"])},
+                            ext_functions={"get_running_loop": (256, [])}, await_ext=257,
+                            nested_ids={"on_timeout": 3001, "on_completion": 3002, "on_result": 3003}),
+        },
+        "obligations": [
+            ("on_completion_is_run_completion", ["gOnCompletion"], "OnCompletion gOnCompletion",
+             "intro s args hq hr hk\n  unfold gOnCompletion\n"
+             "  obtain ⟨kind, ig, fut, tsk, tmr, qC, qR, caller, first, cc⟩ := s\n  simp only at hq hr hk\n  subst hq\n"
+             "  cases tsk with\n  | running c i => exact absurd rfl (hr c i)\n"
+             "  | doneOwn => cases kind <;> (first | exact absurd rfl (hk rfl) | (cases fut <;> cases tmr <;> timeout_eval))\n"
+             "  | doneCancelled => cases kind <;> cases fut <;> cases tmr <;> timeout_eval"),
+            ("on_timeout_is_timer_fires", ["gOnTimeout"], "OnTimeout gOnTimeout",
+             "intro s args ht\n  unfold gOnTimeout\n"
+             "  obtain ⟨kind, ig, fut, tsk, tmr, qC, qR, caller, first, cc⟩ := s\n  simp only at ht\n  subst ht\n"
+             "  cases fut <;> timeout_eval"),
+            ("on_result_is_run_result", ["gOnResult"], "OnResult gOnResult",
+             "intro s args hq\n  unfold gOnResult\n"
+             "  obtain ⟨kind, ig, fut, tsk, tmr, qC, qR, caller, first, cc⟩ := s\n  simp only at hq\n  subst hq\n"
+             "  cases tsk <;> timeout_eval"),
+            ("call_wires_callbacks", ["gCall"], "CallWires gCall", "intro s args timeout\n  unfold gCall\n  timeout_eval"),
         ],
     },
     "queue": {
